@@ -753,29 +753,43 @@ pub fn eval_io_case(t: &[&str]) -> Option<String> {
             // exchanges returned no earlier than 100 ms after its reply had been read
             let n: usize = t[1].parse().unwrap();
             let reply = flipdot_core::Frame::from(msg_of_str(&format!("RS.3.{}", t[2]))).to_bytes_with_newline();
-            let tape: Vec<u8> = (0..n).flat_map(|_| reply.iter().copied()).collect();
-            let port = TestPort::new(SchedReader::new(tape, vec![]), SchedWriter::new(vec![]));
-            let mut bus = match SerialSignBus::try_new(port) {
-                Ok(b) => b,
-                Err(_) => return Some("ER SETUP".to_string()),
-            };
-            let mut paced: Vec<usize> = vec![];
-            let mut unpaced: Vec<usize> = vec![];
-            for i in 0..n {
-                let start = Instant::now();
-                let r = guarded(|| bus.process_message(msg_of_str("QS.3")));
-                let end = Instant::now();
-                if !matches!(r, Some(Ok(Some(_)))) {
-                    return Some(format!("exchange {} failed", i + 1));
+            // One run: the indices (from 1) of the exchanges that returned 100 ms or more after their reply was read.  That
+            // an exchange took LESS is a hard fact (a sleep is never short); that it took more may be the scheduler.  So
+            // when only a few exchanges of a run look paced, the run is repeated (up to twice) and only those that look
+            // paced every time count.
+            let run = || -> Result<Vec<usize>, String> {
+                let tape: Vec<u8> = (0..n).flat_map(|_| reply.iter().copied()).collect();
+                let port = TestPort::new(SchedReader::new(tape, vec![]), SchedWriter::new(vec![]));
+                let mut bus = SerialSignBus::try_new(port).map_err(|_| "ER SETUP".to_string())?;
+                let mut paced: Vec<usize> = vec![];
+                for i in 0..n {
+                    let start = Instant::now();
+                    let r = guarded(|| bus.process_message(msg_of_str("QS.3")));
+                    let end = Instant::now();
+                    if !matches!(r, Some(Ok(Some(_)))) {
+                        return Err(format!("exchange {} failed", i + 1));
+                    }
+                    let after_read = bus.port().rd.last_read_end.filter(|r| *r >= start).map(|r| end.saturating_duration_since(r)).unwrap_or_default();
+                    if after_read >= Duration::from_millis(100) {
+                        paced.push(i + 1);
+                    }
                 }
-                let after_read = bus.port().rd.last_read_end.filter(|r| *r >= start).map(|r| end.saturating_duration_since(r)).unwrap_or_default();
-                if after_read >= Duration::from_millis(100) {
-                    paced.push(i + 1);
-                } else {
-                    unpaced.push(i + 1);
+                Ok(paced)
+            };
+            let mut paced = match run() {
+                Ok(p) => p,
+                Err(e) => return Some(e),
+            };
+            let mut reruns = 0;
+            while !paced.is_empty() && paced.len() * 4 <= n && reruns < 2 {
+                reruns += 1;
+                match run() {
+                    Ok(again) => paced.retain(|i| again.contains(i)),
+                    Err(e) => return Some(e),
                 }
             }
-            Some(format!("n={} paced={} first-unpaced={}", n, paced.len(), unpaced.first().map(|i| i.to_string()).unwrap_or_else(|| "-".to_string())))
+            let first_unpaced = (1..=n).find(|i| !paced.contains(i));
+            Some(format!("n={} paced={} first-unpaced={}", n, paced.len(), first_unpaced.map(|i| i.to_string()).unwrap_or_else(|| "-".to_string())))
         }
         "SBS" => {
             // SBS k msg1..msgk tape rsched... / wsched... : k exchanges on ONE SerialSignBus over one port
